@@ -68,7 +68,7 @@ def check (c : Case01) (o : Obs01) : Verdict :=
   else if o.final.any (fun r => !o.dump.any (sameKey r)) then .fail ("stale-route-not-withdrawn" ++ cls)
   else if o.dump.any (fun r => !o.final.any (sameKey r)) then .fail ("route-of-fresh-dump-missing" ++ cls)
   else if o.final.any (fun r => !o.dump.any (sameRoute r)) then .fail ("route-differs-from-fresh-dump" ++ cls)
-  else if o.final.length ≠ o.dump.length then .fail ("duplicate-key-in-view" ++ cls)
+  else if !(decide (o.final.map (fun r => (r.net, r.pid))).Nodup) then .fail ("duplicate-key-in-view" ++ cls)
   else .ok
 
 end Rbgp.Export.Spec01
